@@ -38,7 +38,7 @@ ASSUMPTIONS = [
     '(the model answers OutOfModel; the generator does not build it)',
     'library callables never return an un-made LazyFn (results made again are handles or plain values)',
 ]
-RULE = ('lazy: random typed expression trees (depth<=5 quick and thorough) over add/mul/pair/len/ident/mkrec/'
+RULE = ('lazy: random typed expression trees (call depth<=5, +1 for an attribute/item node) over add/mul/pair/len/ident/mkrec/'
         'counter/failneg/getattr/getitem with every cache_result_/lazy_result_ combination, ~10% ill-typed or '
         'ill-bound calls, pickle round trips through lazy_fns.pickler, op sequences (make/clear_cache/clear_object, '
         'results of earlier ops re-used as leaves) longer than the shrunk cache bounds 0..3; three oracle levels: '
@@ -244,6 +244,11 @@ def gen_lazy_case(rng, level, fn_max, obj_max, n_ops, depth):
   pool = []
   for _ in range(rng.randrange(1, 5)):
     pool.append(g.root(rng.randrange(1, depth + 1), lazy_root=(level != 'A' and rng.random() < 0.5)))
+  for e in list(pool):
+    if e['t'] == 'call' and e['kw'] and rng.random() < 0.5:
+      e2 = copy.deepcopy(e)
+      e2['kw'][rng.randrange(len(e2['kw']))][1] = g.leaf_int()
+      pool.append(e2)
   ops = []
   for i in range(n_ops):
     k = rng.random()
@@ -298,6 +303,17 @@ def fixed_lazy_cases():
   out.append({'kind': 'lazy', 'level': 'A', 'fn_max': 4, 'obj_max': 4,
               'ops': [{'op': 'make', 'e': e1, 'pickle': False}, {'op': 'make', 'e': e2, 'pickle': False},
                       {'op': 'make', 'e': e1, 'pickle': False}]})
+  # same callable and positional arguments, different keyword arguments / keyword order: different cached calls
+  k1 = call('mul', [const(V_int(3))], [('b', two)], cache=True)
+  k2 = call('mul', [const(V_int(3))], [('b', const(V_int(5)))], cache=True)
+  k3 = call('mul', [const(V_int(3))], [], cache=True)
+  r1 = call('mkrec', [], [('x', one), ('y', two)], cache=True)
+  r2 = call('mkrec', [], [('y', two), ('x', one)], cache=True)
+  r3 = call('mkrec', [], [('x', two), ('y', one)], cache=True)
+  for seq in ([k1, k2, k3, k1, k2, k3], [r1, r2, r3, r1, r2, r3]):
+    for pk in (False, True):
+      out.append({'kind': 'lazy', 'level': 'A', 'fn_max': 3, 'obj_max': 1,
+                  'ops': [{'op': 'make', 'e': e, 'pickle': pk} for e in seq]})
   # LRU order: a, b, a, c with capacity 2 must evict b, not a
   ea, eb, ec = (call('pair', [const(V_int(i)), call('counter', [])], cache=True) for i in (1, 2, 3))
   seq = [ea, eb, ea, ec, ea, eb]
@@ -368,7 +384,7 @@ def gen_cases(ctx):
   quick = ctx.quick
   yield from ctx.corpus()
   yield from fixed_lazy_cases()
-  n_lazy = 700 if quick else 12000
+  n_lazy = 2400 if quick else 30000
   for i in range(n_lazy):
     level = 'ABC'[i % 3] if i % 4 else 'A'
     yield gen_lazy_case(rng, level, rng.randrange(0, 4), rng.randrange(0, 4), rng.randrange(2, 14),
@@ -396,7 +412,7 @@ def gen_cases(ctx):
       for j in (0, 1, 2, 3 + rep, 5, len(ops) - 1):
         ops.append({'op': 'make', 'e': const({'res': j}), 'pickle': False})
       yield {'kind': 'lazy', 'level': 'B', 'fn_max': fn_real, 'obj_max': obj_real, 'ops': ops}
-  for i in range(250 if quick else 5000):
+  for i in range(800 if quick else 10000):
     yield gen_lru_case(rng, 'lru' if i % 2 else 'wrap', rng.randrange(0, 5), rng.randrange(1, 25))
 
 
@@ -895,14 +911,14 @@ def oracle_wrap(case, obs):
     else:
       _, k, ins, v = op
       hit, old = ref.get(k)
-      if ins and hit:
-        textbook = False
       if textbook:
         want_called = 0 if (hit and not ins) else 1
         want = old if (hit and not ins) else v
         if ob['called'] != want_called or ob['ret'] != want:
           return (f'op {i}: wrapped({k}) called fn {ob["called"]}x and returned {ob["ret"]}; '
                   f'textbook LRU: {want_called}x, {want}')
+      if ins and hit:
+        textbook = False        # from here on the code's order may differ (overwrite keeps the entry's age)
       if not hit or ins:
         ref.put(k, v)
     if ob['len'] > cap:
@@ -929,7 +945,60 @@ def has_flag(e):
       any(has_flag(a) for _, a in e['kw'])
 
 
+STATS = {}
+
+
+def _stat(key, sub, n=1):
+  h = STATS.setdefault(key, {})
+  h[str(sub)] = h.get(str(sub), 0) + n
+
+
+def collect(case, obs):
+  _stat('kind', case['kind'] + (':' + case.get('level', '?') if case['kind'] == 'lazy' else ''))
+  if case['kind'] != 'lazy':
+    _stat(case['kind'] + ' maxsize', case['maxsize'])
+    _stat(case['kind'] + ' ops', len(case['ops']) // 5 * 5)
+    return
+  _stat('fn_max', case['fn_max'])
+  _stat('obj_max', case['obj_max'])
+  last = None
+  for op, ob in zip(case['ops'], obs['ops']):
+    _stat('op', op['op'] + ('+pickle' if op.get('pickle') else ''))
+    if op['op'] == 'make':
+      _stat('result', ob['err'] or ('handle' if isinstance(ob['val'], dict) and 'h' in ob['val'] else 'value'))
+      _stat('depth', expr_depth(op['e']))
+      _stat('calls per make', min(len(ob['calls']), 8))
+      if last is not None:
+        if ob['fn'][0] > last['fn'][0]:
+          _stat('branch', 'fn cache hit')
+        if ob['fn'][1] > last['fn'][1]:
+          _stat('branch', 'fn cache miss')
+        if ob['obj'][0] > last['obj'][0]:
+          _stat('branch', 'object deref hit')
+        if ob['obj'][1] > last['obj'][1]:
+          _stat('branch', 'object deref miss')
+        if ob['fn'][2] == last['fn'][2] == case['fn_max'] and ob['fn'][1] > last['fn'][1] and ob['err'] is None \
+            and case['fn_max'] > 0:
+          _stat('branch', 'fn cache eviction')
+      if ob['ident'] is not None and ob['ident'] < len([1 for _ in obs['ops'][:obs['ops'].index(ob)]]):
+        _stat('branch', 'identical object returned again')
+    last = ob
+
+
+def extra(ctx):
+  for k, h in STATS.items():
+    for sub, n in h.items():
+      ctx.count(k, sub, n)
+  need = ['fn cache hit', 'fn cache miss', 'object deref hit', 'object deref miss', 'fn cache eviction',
+          'identical object returned again']
+  missing = [b for b in need if not STATS.get('branch', {}).get(b)]
+  if missing:
+    from harness.core import InfraError
+    raise InfraError(f'C17 generator did not exercise: {missing}')
+
+
 def nontrivial(case, obs):
+  collect(case, obs)
   if case['kind'] == 'lazy':
     makes = [op for op in case['ops'] if op['op'] == 'make']
     return len(makes) >= 2 and any(has_flag(op['e']) for op in makes)
